@@ -12,6 +12,7 @@ import (
 	"pgregory.net/rapid"
 
 	"verif/harness/cs"
+	"verif/harness/ev"
 	"verif/harness/gen"
 	"verif/harness/goval"
 	"verif/harness/model"
@@ -59,6 +60,27 @@ func runC18(c *c18Case) *sm.Fail {
 	return f
 }
 
+var c18Paths = []string{"v", "a", "a.b", "a.b.c", "n.a", "n.b.c", "x", "s.k", "new.deep.path", "b", "c"}
+
+// readsAgree: Has and Get answer every path of the alphabet like the reference lookup on the
+// document's own content, and reading changes nothing.
+func readsAgree(doc *document.Document, when string) (string, string) {
+	content := run.FromDocument(doc)
+	for _, p := range c18Paths {
+		wv, whas := model.Lookup(content, p)
+		if got := doc.Has(p); got != whas {
+			return "get-has", fmt.Sprintf("%s: Has(%q) = %v on %s, reference %v", when, p, got, cs.Show(content), whas)
+		}
+		if got := run.Canon(doc.Get(p)); !cs.StrictEqual(got, wv) {
+			return "get-has", fmt.Sprintf("%s: Get(%q) = %s on %s, reference %s", when, p, cs.Show(got), cs.Show(content), cs.Show(wv))
+		}
+	}
+	if now := run.FromDocument(doc); !cs.StrictEqual(map[string]interface{}(now), map[string]interface{}(content)) {
+		return "get-has", fmt.Sprintf("%s: reading with Has/Get changed the document from %s to %s", when, cs.Show(content), cs.Show(now))
+	}
+	return "", ""
+}
+
 func c18Body(c *c18Case) *sm.Fail {
 	bad := func(clause, f string, a ...interface{}) *sm.Fail {
 		b, _ := json.Marshal(c.Val)
@@ -66,9 +88,29 @@ func c18Body(c *c18Case) *sm.Fail {
 	}
 	want, werr := goval.Expect(&c.Val)
 	doc := run.ToDocument(c.Base)
+	if cl, msg := readsAgree(doc, "before Set"); cl != "" {
+		return bad(cl, "%s", msg)
+	}
 	before := run.FromDocument(doc)
 	doc.Set(c.Path, goval.Build(&c.Val))
 	after := run.FromDocument(doc)
+	if cl, msg := readsAgree(doc, "after Set"); cl != "" && werr == nil && !hasForeign(after) {
+		return bad(cl, "%s", msg)
+	}
+	// the other entry points of the document API: SetAll with the one pair is the same Set; Copy,
+	// AsMap and ToMap show the same content; Fields, TTL and ExpiresAt answer without panicking
+	doc2 := run.ToDocument(c.Base)
+	doc2.SetAll(map[string]interface{}{c.Path: goval.Build(&c.Val)})
+	if viaAll := run.FromDocument(doc2); !cs.StrictEqual(map[string]interface{}(viaAll), map[string]interface{}(after)) {
+		return bad("setall", "SetAll({%q: v}) gives %s, Set(%q, v) gives %s", c.Path, cs.Show(viaAll), c.Path, cs.Show(after))
+	}
+	if cp := run.FromDocument(doc.Copy()); !cs.StrictEqual(map[string]interface{}(cp), map[string]interface{}(after)) {
+		return bad("copy", "Copy() shows %s, the document %s", cs.Show(cp), cs.Show(after))
+	}
+	if am := cs.Doc(run.Canon(doc.AsMap()).(map[string]interface{})); !cs.StrictEqual(map[string]interface{}(am), map[string]interface{}(after)) {
+		return bad("copy", "AsMap() shows %s, the document %s", cs.Show(am), cs.Show(after))
+	}
+	_, _, _, _ = doc.Fields(true), doc.Fields(false), doc.TTL(), doc.ExpiresAt()
 	if werr != nil {
 		if !cs.StrictEqual(map[string]interface{}(after), map[string]interface{}(before)) {
 			return bad("unsupported", "unsupported value changed the document: before %s after %s", cs.Show(before), cs.Show(after))
@@ -95,6 +137,20 @@ func c18Body(c *c18Case) *sm.Fail {
 		if _, isMap := doc.Get(p).(map[string]interface{}); !isMap {
 			return bad("set-prefix", "prefix %q of the path is not an object after Set", p)
 		}
+	}
+	// what Insert does with the document: encoding it for the store must leave the caller's
+	// document as it is (canonical types only) and must decode to the same content
+	if b, err := document.Encode(doc); err == nil {
+		if now := run.FromDocument(doc); !cs.StrictEqual(map[string]interface{}(now), map[string]interface{}(after)) {
+			return bad("insert-keeps-canonical", "encoding the document for the store changed it from %s to %s", cs.Show(after), cs.Show(now))
+		}
+		if back, err := document.Decode(b); err != nil {
+			return bad("insert-keeps-canonical", "Decode(Encode(doc)) failed: %v", err)
+		} else if g := dropDeep(map[string]interface{}(run.FromDocument(back))); !cs.StrictEqual(g, map[string]interface{}(aft)) {
+			return bad("insert-keeps-canonical", "stored form decodes to %s, the document is %s", cs.Show(g), cs.Show(aft))
+		}
+	} else {
+		return bad("insert-keeps-canonical", "Encode of a normalised document failed: %v", err)
 	}
 	// idempotence: normalising the normalised value changes nothing
 	doc.Set(c.Path, doc.Get(c.Path))
@@ -222,7 +278,7 @@ func genSpec(t *rapid.T, depth int) goval.Spec {
 	case 0:
 		return goval.Spec{K: "nil"}
 	case 1:
-		return goval.Spec{K: "bool", B: rapid.Bool().Draw(t, "b")}
+		return goval.Spec{K: rapid.SampledFrom([]string{"bool", "bool", "named-bool"}).Draw(t, "bkind"), B: rapid.Bool().Draw(t, "b")}
 	case 2, 3:
 		kind := rapid.SampledFrom(intKinds).Draw(t, "ikind")
 		v := rapid.SampledFrom([]int64{0, 1, -1, 127, -128}).Draw(t, "ival")
@@ -309,16 +365,24 @@ func unsupportedInside(s *goval.Spec) bool {
 }
 
 func TestC18(t *testing.T) {
-	col := collector("C18", ruleC18)
-	paths := []string{"v", "a", "a.b", "a.b.c", "n.a", "n.b.c", "x", "s.k", "new.deep.path"}
+	check(t, "C18", cases(60000, 2500000), 0, propC18(collector("C18", ruleC18)))
+}
+
+func propC18(col *ev.Collector) func(rt *rapid.T) {
+	paths := c18Paths
 	dcfg := gen.DocCfg{Val: gen.ValCfg{MaxDepth: 1}, PAbsent: 3, Fields: []string{"x", "n", "s"}}
-	check(t, "C18", cases(15000, 400000), 0, func(rt *rapid.T) {
+	return func(rt *rapid.T) {
 		base := gen.Fields(dcfg, 0).Draw(rt, "base")
 		switch rapid.IntRange(0, 3).Draw(rt, "a-shape") {
 		case 0:
 			base["a"] = map[string]interface{}{"b": map[string]interface{}{"c": int64(1), "d": "keep"}, "e": "keep"}
 		case 1:
 			base["a"] = int64(5)
+			if rapid.Bool().Draw(rt, "decoy") {
+				// top-level fields named like the inner components of the paths a.b / a.b.c
+				base["b"] = "decoy"
+				base["c"] = int64(9)
+			}
 		case 2:
 			base["a"] = map[string]interface{}{"b": "scalar"}
 		}
@@ -335,5 +399,29 @@ func TestC18(t *testing.T) {
 			cl = append(cl, "unsupported")
 		}
 		col.Case(ptr || strct || depth >= 2, hashOf(c), func() interface{} { return c }, cl...)
-	})
+	}
+}
+
+// hasForeign: the document holds a value outside the canonical types (reported by the
+// normalise clause with a better message).
+func hasForeign(v interface{}) bool {
+	switch x := v.(type) {
+	case run.Foreign:
+		return true
+	case cs.Doc:
+		return hasForeign(map[string]interface{}(x))
+	case map[string]interface{}:
+		for _, e := range x {
+			if hasForeign(e) {
+				return true
+			}
+		}
+	case []interface{}:
+		for _, e := range x {
+			if hasForeign(e) {
+				return true
+			}
+		}
+	}
+	return false
 }
